@@ -628,4 +628,250 @@ theorem readTrack_sound (cdda : Bool) (b : List Nat) (hb : bytesOk b = true) (t 
                     simp only [List.length_append]
                     omega
 
+
+theorem readTracks_sound (cdda : Bool) (n : Nat) (b : List Nat) (hb : bytesOk b = true) (ts : List CTrack) (r : List Nat)
+    (h : readTracks cdda n b = .ok (ts, r)) :
+    ts.all (trackOk cdda) = true ∧ ts.length = n ∧ b.length = (ts.flatMap trackBytes).length + r.length
+      ∧ (∀ t ∈ ts, t.points.length ≤ 255) ∧ bytesOk r = true := by
+  induction n generalizing b ts r with
+  | zero => simp only [readTracks] at h; cases h; simp [hb]
+  | succ n ih =>
+    simp only [readTracks] at h
+    cases h1 : readTrack cdda b with
+    | error e => rw [h1] at h; cases h
+    | ok v1 =>
+      obtain ⟨t, r1⟩ := v1
+      rw [h1] at h; dsimp only at h
+      cases h2 : readTracks cdda n r1 with
+      | error e => rw [h2] at h; cases h
+      | ok v2 =>
+        obtain ⟨ts', r2⟩ := v2
+        rw [h2] at h
+        simp only [Except.ok.injEq, Prod.mk.injEq] at h
+        obtain ⟨rfl, rfl⟩ := h
+        obtain ⟨t1, t2, t3, t4⟩ := readTrack_sound cdda b hb t r1 h1
+        obtain ⟨i1, i2, i3, i4, i5⟩ := ih r1 t4 ts' _ h2
+        refine ⟨by simp [t1, i1], by simp [i2], ?_, ?_, i5⟩
+        · simp only [List.flatMap_cons, List.length_append]; omega
+        · intro x hx
+          simp only [List.mem_cons] at hx
+          rcases hx with rfl | hx
+          · exact t3
+          · exact i4 x hx
+
+theorem leadBytes_length (cdda : Bool) (l : CLead) : (leadBytes cdda l).length = 36 := by
+  simp [leadBytes, padTo_length]
+
+theorem readLead_sound (cdda : Bool) (b : List Nat) (hb : bytesOk b = true) (l : CLead) (r : List Nat)
+    (h : readLead cdda b = .ok (l, r)) :
+    l.offset ≤ u64Max ∧ isrcOk l.isrc = true ∧ (cdda = false ∨ l.offset % cueSector = 0) ∧ b.length = 36 + r.length := by
+  simp only [readLead] at h
+  cases h1 : takeBytes 8 b with
+  | error e => rw [h1] at h; cases h
+  | ok v1 =>
+    obtain ⟨off, r0⟩ := v1
+    rw [h1] at h; dsimp only at h
+    split at h
+    · cases h
+    rename_i hsec
+    cases h2 : takeBytes 1 r0 with
+    | error e => rw [h2] at h; cases h
+    | ok v2 =>
+      obtain ⟨num, r1⟩ := v2
+      rw [h2] at h; dsimp only at h
+      split at h
+      · cases h
+      cases h3 : takeBytes 12 r1 with
+      | error e => rw [h3] at h; cases h
+      | ok v3 =>
+        obtain ⟨ib, r2⟩ := v3
+        rw [h3] at h; dsimp only at h
+        cases h4 : readIsrc ib with
+        | error e => rw [h4] at h; cases h
+        | ok isrc =>
+          rw [h4] at h; dsimp only at h
+          cases h5 : takeBytes 1 r2 with
+          | error e => rw [h5] at h; cases h
+          | ok v5 =>
+            obtain ⟨fl, r3⟩ := v5
+            rw [h5] at h; dsimp only at h
+            cases h6 : takeBytes 13 r3 with
+            | error e => rw [h6] at h; cases h
+            | ok v6 =>
+              obtain ⟨pad, r4⟩ := v6
+              rw [h6] at h; dsimp only at h
+              cases h7 : takeBytes 1 r4 with
+              | error e => rw [h7] at h; cases h
+              | ok v7 =>
+                obtain ⟨cnt, r5⟩ := v7
+                rw [h7] at h; dsimp only at h
+                split at h
+                · cases h
+                simp only [Except.ok.injEq, Prod.mk.injEq] at h
+                obtain ⟨rfl, rfl⟩ := h
+                obtain ⟨e1, l1⟩ := takeBytes_ok h1
+                obtain ⟨e2, l2⟩ := takeBytes_ok h2
+                obtain ⟨e3, l3⟩ := takeBytes_ok h3
+                obtain ⟨e5, l5⟩ := takeBytes_ok h5
+                obtain ⟨e6, l6⟩ := takeBytes_ok h6
+                obtain ⟨e7, l7⟩ := takeBytes_ok h7
+                have k1 := takeBytes_bytesOk h1 hb
+                have hoff := beNat_lt_pow off k1.1 8 (by omega)
+                refine ⟨by simp only [u64Max]; omega, readIsrc_sound ib isrc h4, ?_, ?_⟩
+                · cases cdda with
+                  | false => left; rfl
+                  | true => right; simpa using hsec
+                · rw [e1, e2, e3, e5, e6, e7]; simp only [List.length_append]; omega
+
+theorem dropWhile_length_le {α} (p : α → Bool) (l : List α) : (l.dropWhile p).length ≤ l.length := by
+  induction l with
+  | nil => simp
+  | cons x r ih => simp only [List.dropWhile_cons]; split <;> simp <;> omega
+
+theorem trimNulls_length_le (l : List Nat) : (trimNulls l).length ≤ l.length := by
+  unfold trimNulls
+  have := dropWhile_length_le (· == 0) l.reverse
+  simpa using this
+
+theorem readCatalog_sound (cdda : Bool) (field cat : List Nat) (h : readCatalog cdda field = .ok cat) :
+    cat.all isDigit = true ∧ cat.length ≤ field.length ∧ (cdda = true → cat.isEmpty = true ∨ cat.length = 13) := by
+  unfold readCatalog at h
+  split at h
+  · cases h
+  rename_i hd
+  split at h
+  · cases h
+  rename_i hc
+  cases h
+  refine ⟨by simpa using hd, trimNulls_length_le field, ?_⟩
+  intro hcd
+  subst hcd
+  simp only [Bool.true_and, Bool.not_eq_true', Bool.or_eq_false_iff, not_and, Bool.not_eq_false, beq_iff_eq] at hc
+  by_cases he : (trimNulls field).isEmpty = true
+  · left; exact he
+  · right
+    have := hc (by simpa using he)
+    simpa using this
+
+theorem parseCue_sound (b : List Nat) (hb : bytesOk b = true) (c : Cue) (h : parseCue b = .ok (c, [])) :
+    c.wf = true ∧ ∃ bs, cueBytes c = .ok bs ∧ bs.length = b.length := by
+  simp only [parseCue] at h
+  cases h1 : takeBytes cueCatalogLen b with
+  | error e => rw [h1] at h; cases h
+  | ok v1 =>
+    obtain ⟨catf, r0⟩ := v1
+    rw [h1] at h; dsimp only at h
+    cases h2 : takeBytes 8 r0 with
+    | error e => rw [h2] at h; cases h
+    | ok v2 =>
+      obtain ⟨li, r1⟩ := v2
+      rw [h2] at h; dsimp only at h
+      cases h3 : takeBytes 1 r1 with
+      | error e => rw [h3] at h; cases h
+      | ok v3 =>
+        obtain ⟨fl, r2⟩ := v3
+        rw [h3] at h; dsimp only at h
+        cases h4 : takeBytes 258 r2 with
+        | error e => rw [h4] at h; cases h
+        | ok v4 =>
+          obtain ⟨pad, r3⟩ := v4
+          rw [h4] at h; dsimp only at h
+          cases h5 : takeBytes 1 r3 with
+          | error e => rw [h5] at h; cases h
+          | ok v5 =>
+            obtain ⟨cnt, r⟩ := v5
+            rw [h5] at h; dsimp only at h
+            cases h6 : readCatalog (fl.headD 0 / 128 == 1) catf with
+            | error e => rw [h6] at h; cases h
+            | ok cat =>
+              rw [h6] at h; dsimp only at h
+              by_cases hnt : (cnt.headD 0 == 0 || ((fl.headD 0 / 128 == 1) && decide (cnt.headD 0 - 1 > cueCddaReadTrackLimit))) = true
+              · rw [if_pos hnt] at h; cases h
+              rw [if_neg hnt] at h
+              cases h7 : readTracks (fl.headD 0 / 128 == 1) (cnt.headD 0 - 1) r with
+              | error e => rw [h7] at h; cases h
+              | ok v7 =>
+                obtain ⟨ts, r4⟩ := v7
+                rw [h7] at h; dsimp only at h
+                by_cases hch : (!(decide (ts.length ≤ if (fl.headD 0 / 128 == 1) = true then cueCddaTrackMax else cueNonCddaTrackMax) && trackChain none ts)) = true
+                · rw [if_pos hch] at h; cases h
+                rw [if_neg hch] at h
+                cases h8 : readLead (fl.headD 0 / 128 == 1) r4 with
+                | error e => rw [h8] at h; cases h
+                | ok v8 =>
+                  obtain ⟨l, r5⟩ := v8
+                  rw [h8] at h
+                  simp only [Except.ok.injEq, Prod.mk.injEq] at h
+                  obtain ⟨rfl, rfl⟩ := h
+                  obtain ⟨e1, l1⟩ := takeBytes_ok h1
+                  obtain ⟨e2, l2⟩ := takeBytes_ok h2
+                  obtain ⟨e3, l3⟩ := takeBytes_ok h3
+                  obtain ⟨e4, l4⟩ := takeBytes_ok h4
+                  obtain ⟨e5, l5⟩ := takeBytes_ok h5
+                  have k1 := takeBytes_bytesOk h1 hb
+                  have k2 := takeBytes_bytesOk h2 k1.2
+                  have k3 := takeBytes_bytesOk h3 k2.2
+                  have k4 := takeBytes_bytesOk h4 k3.2
+                  have k5 := takeBytes_bytesOk h5 k4.2
+                  obtain ⟨c1, c2, c3⟩ := readCatalog_sound _ catf cat h6
+                  obtain ⟨t1, t2, t3, t4, t5⟩ := readTracks_sound _ _ r k5.2 ts r4 h7
+                  obtain ⟨d1, d2, d3, d4⟩ := readLead_sound _ r4 t5 l _ h8
+                  have hcnt := headD_lt cnt k5.1
+                  have hli := beNat_lt_pow li k2.1 8 (by omega)
+                  simp only [Bool.or_eq_true, beq_iff_eq, Bool.and_eq_true, decide_eq_true_eq, not_or, not_and] at hnt
+                  simp only [Bool.not_eq_true', Bool.and_eq_false_iff, not_or, Bool.not_eq_false, decide_eq_false_iff_not, Decidable.not_not,
+                    decide_eq_true_eq] at hch
+                  generalize hcd : (fl.headD 0 / 128 == 1) = cdda at *
+                  have hcatlen : cat.length ≤ cueCatalogLen := by omega
+                  constructor
+                  · simp only [Cue.wf, Bool.and_eq_true, decide_eq_true_eq, Bool.or_eq_true, Bool.not_eq_true', beq_iff_eq]
+                    refine ⟨⟨⟨⟨⟨⟨⟨c1, ?_⟩, hch.1⟩, hch.2⟩, t1⟩, d1⟩, d2⟩, d3⟩
+                    cases cdda with
+                    | false => simp
+                    | true =>
+                      simp only [↓reduceIte, Bool.and_eq_true, Bool.or_eq_true, beq_iff_eq, decide_eq_true_eq, u64Max]
+                      exact ⟨by simpa using c3 rfl, by omega⟩
+                  · have hk : cueCatalogChecked = true := rfl
+                    have g1 : ¬ ((!cdda && cueCatalogChecked && decide (cat.length > cueCatalogLen)) = true) := by
+                      simp only [hk, Bool.and_true, Bool.and_eq_true, Bool.not_eq_true', decide_eq_true_eq, not_and, Nat.not_lt]
+                      intro _; exact hcatlen
+                    have g2 : ¬ (ts.length + 1 > 255) := by omega
+                    have g3 : ¬ ((ts.any fun t => decide (t.points.length > 255)) = true) := by
+                      simp only [List.any_eq_true, decide_eq_true_eq, not_exists, not_and, Nat.not_lt]
+                      exact t4
+                    refine ⟨_, by simp only [cueBytes, g1, ↓reduceIte, g2, g3], ?_⟩
+                    have hl0 : r5.length = 0 := rfl
+                    rw [e1, e2, e3, e4, e5]
+                    simp only [List.length_append, padTo_length, beBytes_length, List.length_replicate, List.length_cons, List.length_nil,
+                      leadBytes_length]
+                    have : cueCatalogLen = 128 := rfl
+                    simp only [List.length_nil] at d4
+                    omega
+
+theorem sound_cuesheet (size : Nat) (body : List Nat) (hb : bytesOk body = true) (hlen : body.length = size) (b : Block)
+    (h : parseBody 5 size body = .ok (b, [])) : Rewritable 5 size b := by
+  simp only [parseBody] at h
+  cases hp : parseCue body with
+  | error e => rw [hp] at h; cases h
+  | ok v =>
+    obtain ⟨c, r⟩ := v
+    rw [hp] at h
+    simp only [Except.ok.injEq, Prod.mk.injEq] at h
+    obtain ⟨rfl, rfl⟩ := h
+    obtain ⟨w, bs, hbs, hl⟩ := parseCue_sound body hb c hp
+    exact ⟨w, rfl, bs, hbs, by omega⟩
+
+/-- every block the reader can produce from a body of the declared size is `Rewritable` -/
+theorem parseBody_sound (ty size : Nat) (body : List Nat) (hb : bytesOk body = true) (hlen : body.length = size)
+    (hsz : size ≤ maxBlockSize) (b : Block) (h : parseBody ty size body = .ok (b, [])) : Rewritable ty size b := by
+  match ty, h with
+  | 0, h => exact sound_streaminfo size body hb hlen b h
+  | 1, h => exact sound_padding size body hsz b h
+  | 2, h => exact sound_application size body hb b h
+  | 3, h => exact sound_seektable size body hb b h
+  | 4, h => exact sound_vorbis size body hlen hsz b h
+  | 5, h => exact sound_cuesheet size body hb hlen b h
+  | 6, h => exact sound_picture size body hb hlen hsz b h
+  | n + 7, h => simp only [parseBody] at h; split at h <;> cases h
+
 end Flac.C11
